@@ -120,7 +120,7 @@ def run_case(ctx, opts, ending, idx, pre_trace=False):
     if ending == "list":
         # a run that only lists the tests is an in-process run that returns, too
         args.append("--list-tests")
-    if "postmortem" in opts and ending in ("pass", "interrupt"):
+    if "postmortem" in opts and ending in ("pass", "interrupt", "hook-raises"):
         # -D with nothing to debug (no test fails): the tests run through another loop of the runner
         args.append("-D")
     case = {"dir": d, "args": args, "pre_trace": pre_trace}
@@ -173,7 +173,9 @@ def run(ctx):
         cases = ctx.rng.sample(cases, 40) + [(tuple(OPTS), e) for e in ENDINGS] + \
             [(("gc", "gcopt", "profile"), "chdir"), (("gc", "profile"), "chdir"), (("gcopt", "profile", "buffer"), "chdir"),
              ((), "list"), (("gc", "gcopt"), "list"), (("coverage", "buffer"), "list"),
-             (("buffer",), "swaplayer"), (("buffer", "gc"), "swaplayer"), (("buffer",), "swaplayer"), ((), "swaplayer")]
+             (("buffer",), "swaplayer"), (("buffer", "gc"), "swaplayer"), (("buffer",), "swaplayer"), ((), "swaplayer"),
+             # -D runs the tests through another loop of the runner: a per-test layer hook that raises there
+             (("buffer", "postmortem"), "hook-raises"), (("postmortem",), "hook-raises"), (("buffer", "gc", "postmortem"), "hook-raises")]
     with concurrent.futures.ThreadPoolExecutor(max_workers=10) as ex:
         results = list(ex.map(lambda a: run_case(ctx, a[1][0], a[1][1], a[0]), enumerate(cases)))
     queries = []
